@@ -114,15 +114,22 @@ impl<H> HandlerVec<H> {
         &mut self,
         mut cb: impl FnMut(H) -> HandlerResult,
     ) -> HandlerResult {
-        #[cfg(feature = "_verif_hooks")]
-        crate::verif_hooks::add_handler_steps(
-            self.items
-                .iter()
-                .position(|item| item.user_count > 0)
-                .map_or(self.items.len(), |p| p + 1),
-        );
-        // already-handled end tag handlers may be first, and they must not be removed
-        if let Some(first) = self.items.iter().position(|item| item.user_count > 0) {
+        // already-handled end tag handlers may be first, and they must not be removed.
+        // `self.user_count` is the sum of the items' counts, so the first active item is found by walking
+        // back from the end until every use is accounted for: the cost is that of the tail that is removed,
+        // not of the handlers of all the elements that are still open.
+        let mut remaining = self.user_count;
+        let mut first = None;
+        for (idx, item) in self.items.iter().enumerate().rev() {
+            if remaining == 0 {
+                break;
+            }
+            if item.user_count > 0 {
+                remaining = remaining.saturating_sub(item.user_count);
+                first = Some(idx);
+            }
+        }
+        if let Some(first) = first {
             // Must drop everything after, as remove() would change indexes anyway, breaking locators.
             // rev() is for backwards-compat with previous implementation.
             for item in self.items.drain(first..).rev() {
